@@ -213,10 +213,11 @@ class SuperSpeedStreamInEndpoint(Elaboratable):
         in_token_received = ack_received & is_in_token
 
         # Our packet parameters are latched by the link layer when the packet (or ZLP) starts, which can be
-        # outside of SEND_PACKET; so we provide them continuously.
+        # outside of SEND_PACKET; so we provide them continuously. A ZLP that is sent in the same cycle
+        # as the ACK that advances our sequence number already uses the advanced number.
         m.d.comb += [
             interface.tx_direction          .eq(USBDirection.IN),
-            interface.tx_sequence_number    .eq(sequence_number),
+            interface.tx_sequence_number    .eq(Mux(advance_sequence, next_sequence_number, sequence_number)),
             interface.tx_length             .eq(read_fill_count),
             interface.tx_endpoint_number    .eq(self._endpoint_number),
         ]
@@ -386,7 +387,6 @@ class SuperSpeedStreamInEndpoint(Elaboratable):
                         with m.If(last_packet_was_zlp):
                             m.d.comb += [
                                 interface.tx_zlp.eq(1),
-                                advance_sequence.eq(1),
                             ]
 
                         # ... or by moving right back into sending a data packet.
@@ -399,7 +399,8 @@ class SuperSpeedStreamInEndpoint(Elaboratable):
                     with m.Else():
 
                         # We no longer need to keep the data that's been acknowledged; clear it.
-                        m.d.ss += read_fill_count.eq(0)
+                        m.d.ss   += read_fill_count.eq(0)
+                        m.d.comb += advance_sequence.eq(1)
 
                         # Figure out if we'll need to follow up with a ZLP. If we have ZLP generation enabled,
                         # we'll make sure we end on a short packet. If this is max-packet-size packet _and_ our
